@@ -78,6 +78,7 @@ K_FILTERS = {
     "vk_is_contained_in_n2": H("B", "MappingInfo::is_contained_in", "2 symbolic user mappings"),
 }
 K_REGS_THREAD = {
+    "vk_thread_info_reads_the_thread_itself": H("C", "ThreadInfoX86::create_impl (every ptrace request names the thread)"),
     "vk_thread_fill_cpu_context_gprs": H("C", "ThreadInfoX86::fill_cpu_context (GPR, flags, segments, debug registers)"),
     "vk_thread_fill_cpu_context_fpstate": H("C", "ThreadInfoX86::fill_cpu_context (x87/SSE save area, byte for byte)"),
 }
@@ -338,11 +339,13 @@ PLAN["C13"] = {
     "explanation": "MappingInfo::aggregate (through procfs-core's real parser) checked on every memory map of up to 3 lines over a 64-element per-line "
                    "domain and every vDSO choice (1 060 992 maps) against five reference predicates derived from the statement",
     "verus": [],
-    "kani": [],
+    "kani": [{"tiers": Q, "jobs": 2, "timeout": 1500, "harnesses": {
+        "vk_aggregate_one_line_path": H("B", "MappingInfo::aggregate", "1 line, symbolic addresses/permissions/offset/vDSO address, name /a"),
+        "vk_aggregate_one_line_anonymous_gate": H("B", "MappingInfo::aggregate (gate naming)", "1 anonymous line, symbolic numbers and vDSO address")}}],
     "native": [{"stem": "maps_reader", "filter": "bprime_aggregate", "tiers": Q, "tests": {
         "bprime_aggregate_up_to_2_lines": H("B'", "MappingInfo::aggregate", "all maps of 1..=2 lines over the per-line domain x vDSO choices (12 416)"),
         "bprime_aggregate_up_to_3_lines": H("B'", "MappingInfo::aggregate", "all maps of 1..=3 lines (1 060 992)")}}],
-    "trusted": ["Kani needs > 7 min for two lines (measured in the design phase) and Verus rejects the function: the property is decided at tier B' only",
+    "trusted": ["Kani handles one line with symbolic numbers (77 s) but not two within 40 min, and Verus rejects the function: beyond one line the property is decided at tier B' only",
                 "'between two parts of an executable file mapping' is read as 'between two parts of the same file mapping' (the code does not test executability for the fold rule)"],
     "samples": ["P2: every line lies in exactly one derived mapping", "P4: a line joins a group only if it carries the group's name, or is the inaccessible gap after an executable file mapping, or the anonymous inaccessible page between two parts of the same file"],
 }
